@@ -12,6 +12,34 @@ api_log = [port, op id, 'ok' | '<http status>'] ; subs[p][i]['op'] = id of the s
 """
 
 
+# Static write transforms chosen by the harness (index = 'tr' of the port definition). `$` is the port's own value.
+# 4 is lazy: the two branches suspend a different number of times; 5 fails (division by zero) for the value 105.
+TRANSFORMS = [None, '$', 'MUL($, 10)', 'ADD($, 1000)', 'IF(GT($, 150), $, SUB(0, $))',
+              'IF(EQ($, 105), DIV(1, 0), MUL($, 2))']
+
+
+def xform(tr, v):
+    """What the driver must receive for a submitted value (None = unavailable stays unavailable)."""
+    if v is None or tr in (0, 1):
+        return v
+    if tr == 2:
+        return v * 10
+    if tr == 3:
+        return v + 1000
+    if tr == 4:
+        return v if v > 150 else -v
+    if tr == 5:
+        return v * 2          # (105 is refused by the transform: never a submission)
+    raise ValueError(tr)
+
+
+def port_cap(case, j):
+    """Queue capacity of port j (0 = the live default). Ports with a function transform keep the default capacity:
+    their enqueue happens some loop iterations after the observable call, so only ORDER is checked there, not the
+    exact instant of a drop."""
+    return 0 if case['ports'][j]['tr'] >= 2 else case['cap']
+
+
 def same(a, b):
     """Port values compared as numbers (True == 1 == 1.0); None (unavailable) only equals None."""
     if a is None or b is None:
@@ -19,7 +47,7 @@ def same(a, b):
     return float(a) == float(b)
 
 
-def check_trace(case, cap, events, subs, api_log):
+def check_trace(case, caps, events, subs, api_log):
     n = len(case['ports'])
     tags = set()
     fail = None
@@ -81,9 +109,10 @@ def check_trace(case, cap, events, subs, api_log):
             started[p].append(h)
             if res(p, h) == 'full':
                 bad(f't={t}ms port {p}: submission #{h} was written although its submitter was told queue-full')
-            want = subs[p][h]['v']
+            tr = case['ports'][p]['tr']
+            want = xform(tr, subs[p][h]['v'])
             if not same(want, ev[3]):
-                later = [i for i in q if same(subs[p][i]['v'], ev[3])]
+                later = [i for i in q if same(xform(tr, subs[p][i]['v']), ev[3])]
                 bad(f't={t}ms port {p}: write_value({ev[3]}) entered, but the oldest pending submission is #{h} '
                     f'with value {want}' + (f' (the value of the later submission #{later[0]})' if later else ''))
         elif kind in ('we', 'lwe'):
@@ -104,6 +133,13 @@ def check_trace(case, cap, events, subs, api_log):
         elif kind == 'sub':
             i = ev[3]
             q = pend[p]
+            cap = caps[p]
+            if case['ports'][p]['tr'] >= 2:
+                tags.add('fn-transform-submit')
+                if subs[p][i]['v'] is None:
+                    tags.add('fn-transform-null')
+                if q:
+                    tags.add('fn-transform-burst')
             if lw[p] and q:
                 tags.add('submit-during-load-write')
             # drops decided by this submission: the oldest queued ones, while at least `cap` are queued.
@@ -128,7 +164,7 @@ def check_trace(case, cap, events, subs, api_log):
                 tags.add('dropped')
                 if i not in justified[p]:
                     bad(f'port {p}: submission #{i} (value {s["v"]}) was rejected with queue-full although fewer than '
-                        f'{cap} values were queued, or it was not the oldest queued one')
+                        f'{caps[p]} values were queued, or it was not the oldest queued one')
             elif r is None:
                 bad(f'port {p}: the submitter of #{i} (value {s["v"]}, {s["origin"]}) never got an answer '
                     f'({"it was never written" if i not in started[p] else "its write happened"})')
